@@ -386,7 +386,7 @@ impl PubSubManager {
 }
 
 /// Check if a pattern matches a channel name
-/// Supports glob-style patterns with * and ?
+/// Supports glob-style patterns with *, ?, [set], [^set], [a-z] ranges and \ escapes
 pub fn pattern_matches(pattern: &[u8], channel: &[u8]) -> bool {
     let mut p_idx = 0;
     let mut c_idx = 0;
@@ -395,36 +395,19 @@ pub fn pattern_matches(pattern: &[u8], channel: &[u8]) -> bool {
     
     while c_idx < channel.len() {
         if p_idx < pattern.len() {
-            match pattern[p_idx] {
-                b'?' => {
-                    // ? matches any single character
-                    p_idx += 1;
-                    c_idx += 1;
-                    continue;
-                }
-                b'*' => {
-                    // * matches zero or more characters
-                    star_idx = Some(p_idx);
-                    star_match_idx = c_idx;
-                    p_idx += 1;
-                    continue;
-                }
-                b'\\' if p_idx + 1 < pattern.len() => {
-                    // Escaped character
-                    if pattern[p_idx + 1] == channel[c_idx] {
-                        p_idx += 2;
-                        c_idx += 1;
-                        continue;
-                    }
-                }
-                _ => {
-                    // Regular character match
-                    if pattern[p_idx] == channel[c_idx] {
-                        p_idx += 1;
-                        c_idx += 1;
-                        continue;
-                    }
-                }
+            if pattern[p_idx] == b'*' {
+                // * matches zero or more characters
+                star_idx = Some(p_idx);
+                star_match_idx = c_idx;
+                p_idx += 1;
+                continue;
+            }
+            
+            // Any other pattern element consumes exactly one character
+            if let Some(next_p_idx) = match_single(pattern, p_idx, channel[c_idx]) {
+                p_idx = next_p_idx;
+                c_idx += 1;
+                continue;
             }
         }
         
@@ -444,6 +427,59 @@ pub fn pattern_matches(pattern: &[u8], channel: &[u8]) -> bool {
     }
     
     p_idx == pattern.len()
+}
+
+/// Match the single-character pattern element starting at `p_idx` (`?`, a
+/// `[...]` class, an escaped or a literal character) against `c`. Returns the
+/// index just past the element when it matches.
+fn match_single(pattern: &[u8], p_idx: usize, c: u8) -> Option<usize> {
+    match pattern[p_idx] {
+        b'?' => Some(p_idx + 1),
+        b'[' => {
+            let mut i = p_idx + 1;
+            let negate = i < pattern.len() && pattern[i] == b'^';
+            if negate {
+                i += 1;
+            }
+            let mut matched = false;
+            loop {
+                if i >= pattern.len() {
+                    // Unterminated class: it ends with the pattern
+                    break;
+                }
+                if pattern[i] == b'\\' && i + 1 < pattern.len() {
+                    i += 1;
+                    if pattern[i] == c {
+                        matched = true;
+                    }
+                } else if pattern[i] == b']' {
+                    i += 1;
+                    break;
+                } else if i + 2 < pattern.len() && pattern[i + 1] == b'-' {
+                    let (mut lo, mut hi) = (pattern[i], pattern[i + 2]);
+                    if lo > hi {
+                        std::mem::swap(&mut lo, &mut hi);
+                    }
+                    i += 2;
+                    if c >= lo && c <= hi {
+                        matched = true;
+                    }
+                } else if pattern[i] == c {
+                    matched = true;
+                }
+                i += 1;
+            }
+            if matched != negate { Some(i) } else { None }
+        }
+        b'\\' if p_idx + 1 < pattern.len() => {
+            // Escaped character
+            if pattern[p_idx + 1] == c { Some(p_idx + 2) } else { None }
+        }
+        literal => {
+            // Regular character match
+            if literal == c { Some(p_idx + 1) } else { None }
+        }
+    }
 }
 
 /// Format a pub/sub message frame
